@@ -267,7 +267,7 @@ fn call3<A: SymArg, B: SymArg, C: SymArg, R>(f: impl FnOnce(A, B, C) -> R) {
     rstd::mem::forget(r);
 }
 
-//@ tier=quick cap=120
+//@ tier=quick cap=120 mem=3
 #[kani::proof]
 #[kani::stub(rstd::fmt::format, fmt_stub)]
 fn c06_prim_canary() {
@@ -283,7 +283,7 @@ for table, name, n, vmname, expr, tier in harnesses:
     seen.add(hname)
     cap = 900 if tier == "thorough" else 300
     expr1 = " ".join(expr.split())
-    out.append("//@ tier=%s cap=%d funcs=%s bound=%s" % (
+    out.append("//@ tier=%s cap=%d mem=3 funcs=%s bound=%s" % (
         tier, cap, vmname.replace(",", ";").replace(" ", ""),
         "all_argument_tuples;ints_64bit;chars_any_scalar;strings_le_2_scalars_le_4_bytes"))
     out.append("#[kani::proof]\n#[kani::unwind(%d)]\n#[kani::stub(rstd::fmt::format, fmt_stub)]" % UNWIND.get((table, name), 6))
